@@ -91,7 +91,8 @@ def _responses(crate, f, binds):
         if n.get('k') == 'call':
             sm = server_message_sent(n, binds)
             if sm:
-                out.append((n, anc, sm[0], sm[1]))
+                for (variant, payload, _arm, _scrut) in sm.alts:
+                    out.append((n, anc, variant, payload))
     return out
 
 
